@@ -226,7 +226,7 @@ func runProperty(e *Engine, spec *PropSpec, tier string) *propResult {
 		}
 		r.reports = append(r.reports, e.verifyFunction(fn))
 	}
-	budget := 10 * time.Second
+	budget := 20 * time.Second // the slowest single query on the unchanged tree takes ~2 s unloaded; margin for a loaded machine
 	if tier == "thorough" {
 		budget = 60 * time.Second
 		e.cfg.CrossCheck = true
